@@ -8,9 +8,9 @@ WT=$1; OUT=$2; ID=$3; PROPS=$4; TIER=${5:-quick}
 HEAD=$(git -C /repo rev-parse HEAD)
 git -C "$WT" checkout -q -- . ; git -C "$WT" clean -fdq; git -C "$WT" checkout -q --detach "$HEAD" || exit 3
 [ -f "$OUT/demo/run.sh" ] || { echo "NO-DEMO $ID"; exit 3; }
-sh "$OUT/demo/run.sh" > /tmp/sc-$ID-clean.txt 2>&1; rc_clean=$?
+bash "$OUT/demo/run.sh" > /tmp/sc-$ID-clean.txt 2>&1; rc_clean=$?
 git -C "$WT" apply "$OUT/patch.diff" || { echo "PATCH-DOES-NOT-APPLY $ID"; exit 3; }
-sh "$OUT/demo/run.sh" > /tmp/sc-$ID-broken.txt 2>&1; rc_broken=$?
+bash "$OUT/demo/run.sh" > /tmp/sc-$ID-broken.txt 2>&1; rc_broken=$?
 git -C "$WT" checkout -q -- . ; git -C "$WT" clean -fdq
 # some demonstrations end with `|| true`: also decide by what they print
 grep -q "^--- FAIL\|^FAIL\|VIOLATION" /tmp/sc-$ID-clean.txt && rc_clean=1
